@@ -98,8 +98,9 @@ pub fn read_back<S: IndexedFull>(
             return ReadBack::Differs(show_key(key), format!("type/link target differs: {:?}", node.node_type));
         }
         if opts.meta {
-            if node.meta.mode.map(|m| m & opts.mode_mask) != Some(e.mode & opts.mode_mask) {
-                return ReadBack::Differs(show_key(key), format!("mode {:?} != {:o}", node.meta.mode, e.mode));
+            // node modes are in Go's io/fs layout; symlink permission bits are not portable (not compared)
+            if !matches!(e.kind, Kind::Symlink(_)) && node.meta.mode.map(|m| crate::model::perm_from_go(m) & opts.mode_mask) != Some(e.mode & 0o7777 & opts.mode_mask) {
+                return ReadBack::Differs(show_key(key), format!("mode {:?} (go layout) != {:o}", node.meta.mode.map(|m| format!("{:o}", crate::model::perm_from_go(m))), e.mode));
             }
             let mt = node.meta.mtime.map(|t| (t.as_second(), t.subsec_nanosecond()));
             if mt != Some(e.mtime) {
